@@ -12,8 +12,7 @@ behaviour exactly (impl == model) and (b) the finding's match rule — a predica
 in Python and, independently, in Lean (WfState/Class.lean; the two are compared on every case) — holds.  A disagreement
 on a workflow inside the class (`inClass`: no shared origins, no later-upstream-through-two-fields, no combiner that
 removes all inherited axes of a node with an own splitter, no partially combined zip feeding another node, no node name that
-is a substring of a foreign combiner key, no combined state whose keys `State.splits` lists out of nesting order) is always a
-VIOLATION.
+is a substring of a foreign combiner key) is always a VIOLATION.
 """
 
 from __future__ import annotations
@@ -47,7 +46,7 @@ META = {
     "connected state's history meets a connected root (C03_history_noop); with duplicate-free keys the code's group selection "
     "by dictionary inclusion equals the reference's selection by coordinate restriction (C03_group_test).  (3) Kernel-evaluated "
     "witnesses show the model of the "
-    "code differs from the reference on the diamond (|A|² jobs, D2) and on seven further shapes, so C03_full_statement is "
+    "code differs from the reference on the diamond (|A|² jobs, D2) and on six further shapes, so C03_full_statement is "
     "stated and refuted for the model, not claimed.  NOT proved: Model.run = Spec.run for the rest of the empirical class "
     "(combiners, scalar splitters, shared origins the mechanism happens to handle) — there the composition is TESTED: every "
     "generated workflow (≤ 5 nodes; chain, fan-in, "
@@ -234,11 +233,13 @@ def flags(case) -> dict:
         "partialZipFeeds": any(partial_zip(nd) and nd["name"] in consumers for nd in case["nodes"]),
         # State.current_combiner tests `self.name in comb` (substring): a key of another node that contains this node's name
         "nameClash": any(nd["name"] in c and not c.startswith(nd["name"] + ".") for nd in case["nodes"] for c in nd.get("combine") or []),
-        # State.splits lists the keys of a combined state in another order than its index tuples are nested (D46)
+        # the shape on which State.splits' OLD key bookkeeping listed the keys of a combined state out of nesting order
+        # (D46, fixed): a coverage counter, inside the class
         "keyOrder": any(i["misordered"] for i in infos.values()),
     }
     fl = {k: bool(v) for k, v in fl.items()}
-    fl["inClass"] = not (fl["shared"] or fl["laterMulti"] or fl["combAllPrev"] or fl["partialZipFeeds"] or fl["nameClash"] or fl["keyOrder"])
+    # keyOrder is NOT an exclusion: D46 is fixed (/repo 932a47fa), the shape must agree with the reference
+    fl["inClass"] = not (fl["shared"] or fl["laterMulti"] or fl["combAllPrev"] or fl["partialZipFeeds"] or fl["nameClash"])
     return fl
 
 
@@ -284,18 +285,12 @@ def attribute(fl: dict, kind: str) -> str | None:
             return "D31" if fl["dropsRoot"] else ("D36" if fl["sharedComb"] else "D2")
     if fl["laterMulti"] and kind in ("wrongvals", "morejobs"):
         return "D38"
-    if fl["keyOrder"] and kind in ("KeyError", "wrongvals", "IndexError"):
-        # keys_final of a combined state disagree with its index tuples: the tuple looked up in ind_map is a permutation
-        # (KeyError when it is not a valid tuple; otherwise wrong final index dictionaries downstream)
-        return "D46"
     if fl["partialZipFeeds"]:
         return "D29"
     if fl["combAllPrev"]:
         return "D37"
     if fl["laterMulti"]:
         return "D38"
-    if fl["keyOrder"]:
-        return "D46"
     return None
 
 
@@ -882,7 +877,7 @@ WHAT = {
 }
 
 
-PINNED_FINGERPRINT = "220516b8b61846fc"  # sha256 prefix of the source of the modelled functions at the pinned commit
+PINNED_FINGERPRINT = "f5a40c82e41143e9"  # sha256 prefix of the source of the modelled functions at the pinned commit
 
 
 def fingerprint() -> str:
@@ -934,6 +929,10 @@ def correspondence(ctx):
     cases += [dict(r["case"], shape="corpus", corpus_id=r["id"]) for r in load_corpus("regressions.jsonl")]
     # minimised past disagreements between the model and the implementation (each must now be predicted exactly)
     cases += [dict(r["case"], shape="corpus", corpus_id=r["id"]) for r in load_corpus("past_disagreements.jsonl")]
+    # D46 (fixed): the targeted key-order cases must agree with the reference — all of them in the thorough tier, a
+    # quarter per seed in the quick tier
+    ko = load_corpus("key_order.jsonl")
+    cases += [dict(r["case"], shape="corpus", corpus_id=r["id"]) for k, r in enumerate(ko) if ctx.tier == "thorough" or k % 4 == ctx.seed % 4]
     n = ctx.pick(110, 2000) * (2 if changed else 1)
     cases += [gen_case(ctx.rng, max_jobs=ctx.pick(32, 90)) for _ in range(n)]
     res = run_cases(ctx, cases)
